@@ -165,13 +165,13 @@ CLAIMED = {
                      'solveEquationForFunction, degrees 4-5, FFT stages. The solver uses the first cell\'s half width for every cell (uniform radial breaks assumed by the code; the oracle mirrors this).'),
     'C15': dict(
         category='proof',
-        technique='symbolic execution of the real quasi-neutrality pipeline (getModes, solveEquation, findPotential, layout changes) on a symbolic real density with the FFT replaced by the exact DFT for ntheta=4; z3 linear identities against an independent mode-by-mode reference',
-        text='PARTIAL, in exact arithmetic and for ntheta = 4 (exact twiddle factors): for all real densities the potential produced '
+        technique='symbolic execution of the real quasi-neutrality pipeline (getModes, solveEquation, findPotential, layout changes) on a symbolic real density with the FFT replaced by the exact DFT (ntheta 4 and 3; thorough also 2 and 6; twiddles in Q(i, sqrt 3) with sqrt3^2=3 as a solver constraint); z3 identities against an independent mode-by-mode reference',
+        text='PARTIAL, in exact arithmetic and for ntheta in {4, 3} (thorough also 2, 6; exact twiddle factors in Q(i) resp. Q(i, sqrt 3), so one even and one odd theta count, with and without a Nyquist mode): for all real densities the potential produced '
              'by density -> modes -> per-mode solve -> inverse transform equals the one computed mode by mode by an independent '
              'implementation (FFT-ordered mode numbers, m^2, inner Neumann condition for m=0 only, chi convention for the m=0 mode, '
              'adiabatic response on all other modes, kinetic electrons without it), on every rank of the listed process grids, and its '
              'imaginary part is identically zero. NOT decided: that fft/ifft round-trip to the identity (the DFT definition is the '
-             'contract used), other theta counts, the equilibrium as a fixed point of the complete time step.',
+             'contract used), theta counts whose twiddle factors lie outside Q(i, sqrt 3), the equilibrium as a fixed point of the complete time step.',
         design_ref='DESIGN.md 5 (C15)',
         note=TRUST + 'scipy.fftpack.fft/ifft by their definition (contract); spsolve exact on the concrete rational systems; rational n0, Te profiles '
                      'passed through the constructor keywords.'),
